@@ -368,8 +368,39 @@ def _eval_flag(cond, flag: str, value: bool):
     return None
 
 
+def _memoised_print(program, res):
+    """the text of a term depends on who asks: an operand position asks for parentheses (want_inline_parens=True), a top-level position does not.  A
+    to_python that hands back a stored text (`if self._t is None: self._t = …; return self._t`) answers every later caller with what the *first* caller
+    asked for: `a / (a + b)` prints as `a / a + b` once `a + b` was printed on its own"""
+    mod = program.module("expr_rep")
+    n = 0
+    for cls in mod.classes.values():
+        tp = cls.methods.get("to_python")
+        if tp is None or "want_inline_parens" not in [a.arg for a in tp.node.args.kwonlyargs + tp.node.args.args]:
+            continue
+        n += 1
+        stored = {unparse(t) for st in ast.walk(tp.node) if isinstance(st, ast.Assign) for t in st.targets if isinstance(t, ast.Attribute) and unparse(t.value) == "self"}
+        memo = [r for r in ast.walk(tp.node) if isinstance(r, ast.Return) and r.value is not None and unparse(r.value) in stored]
+        if memo:
+            res.fail_at("C12-S2", tp, f"printed-text-memoised-without-flag:{cls.name}",
+                        f"{cls.name}.to_python stores its text on the node and returns `{unparse(memo[0].value)}` to later callers: the stored text was built for the first caller's "
+                        f"want_inline_parens, so an expression printed once on its own (a column of its own, repr()) loses its parentheses as an operand later", memo[0])
+        else:
+            res.ok("C12-S2", f"{cls.name}.to_python builds its text for the caller's want_inline_parens each time", nontrivial=False)
+    res.expect_count("C12-S2", "to_python methods taking want_inline_parens", n, 3)
+
+
 def _s2(program, res):
+    _memoised_print(program, res)
     tp = program.method("expr_rep", "Expression", "to_python", inherited=False)
+    # the body may have moved into a method of the class that to_python hands want_inline_parens to: that method is what prints
+    for c in ast.walk(tp.node):
+        if isinstance(c, ast.Call) and isinstance(c.func, ast.Attribute) and unparse(c.func.value) == "self" \
+                and any(k.arg == "want_inline_parens" for k in c.keywords):
+            h = program.cls("expr_rep", "Expression").find_method(c.func.attr)
+            if h is not None and h.node is not tp.node and any("self.inline" == unparse(t.test).strip() for t in ast.walk(h.node) if isinstance(t, ast.If)):
+                tp = h
+                break
     res.analysed(tp)
     g = cfgmod.build(tp.node)
     npaths = 0
